@@ -610,6 +610,20 @@ for pattern in ([0.5, 2.0, 0.5, 0.5], [3.0, 0.2, 0.9, 0.3], [0.1, 0.1, 0.1]):   
         if (c['Fx'] is None) != (want is None) or (want is not None and float(c['Fx'][0]) != float(want[0])):
             bad.append('adaptive driver: cached F handed to the stepper does not belong to the current state (after a rejected step)'); break
         if c['r'] <= 1: last = c
+# step-size factors stay within the safety bounds [0.2, 5], also when the error estimate is far off in either direction
+for pattern in ([1e6, 1e-9, 0.5, 0.5], [1e-12, 40.0, 1e-12, 0.9]):      # (net growth per cycle: every run terminates)
+    taus = []; tol = 1e-2
+    def stepper(M, F, J, x, tau_, data, Fx=None):
+        r = pattern[len(taus) % len(pattern)]
+        if len(taus) > 2000: raise RuntimeError('replay stepper called too often')
+        taus.append(tau_)
+        xn = x + tau_; d = tol + tol * np.abs(x)
+        return xn, xn + r * d * np.sqrt(len(x)), np.zeros(1)
+    meth = solvers._adaptive_step_method(stepper, 2, None)
+    times, sols = meth(None, None, None, np.zeros(1), 0.1, 3.0, tol, t0=0.0)
+    ratios = [b / a for a, b in zip(taus, taus[1:])]
+    off = [q for q in ratios if not (0.2 - 1e-12 <= q <= 5.0 + 1e-12)]
+    if off: bad.append('adaptive driver: step changed by factor %.4g (outside [0.2, 5])' % off[0])
 print(json.dumps({'reproduced': bool(bad), 'bad': bad[:5]}))
 """
 
